@@ -310,6 +310,7 @@ func c16Spaces(c *fw.Ctx) {
 			})
 	}
 
+	c16NonCanonicalSpace(c)
 	c.Space("msg", "messages with all four sections populated (C01 pool + OPT + SVCB + APL + NSEC): Copy and CopyTo vs original, Unpack vs its buffer (every octet overwritten), Pack/PackBuffer/Len/String/Copy read-only; 24 rotations; non-trivial: all", true,
 		func(emit func(func(*fw.R))) {
 			pool := append(c01Pool(),
